@@ -5,6 +5,7 @@ use serde_json::{json, Value};
 /// scenario values use {"__obj__": [[key, value], ...]} for objects so that member order survives
 fn build(v: &Value) -> Value {
     match v {
+        Value::Object(m) if m.contains_key("__float__") => serde_json::from_str::<Value>(m["__float__"].as_str().unwrap()).expect("float text"),
         Value::Object(m) if m.contains_key("__obj__") => {
             let mut o = serde_json::Map::new();
             for kv in m["__obj__"].as_array().unwrap() { o.insert(kv[0].as_str().unwrap().to_string(), build(&kv[1])); }
